@@ -9,7 +9,7 @@ COMPONENTS = {
 }
 
 PROPS = {
-    "C01": {"families": [("mixed", 3), ("pause", 2), ("faultfree", 1)], "judge": ["C01"], "quick_s": 20, "thorough_s": 600},
+    "C01": {"families": [("mixed", 3), ("pause", 2), ("faultfree", 1), ("c05ack", 1)], "judge": ["C01"], "quick_s": 20, "thorough_s": 600},
     "C02": {"families": [("faultfree", 2), ("c07rounds", 1), ("c02stop", 1), ("ctxcancel", 1)], "judge": ["C02"], "quick_s": 20, "thorough_s": 600},
     "C03": {"families": [("c03", 3), ("mixed", 1), ("ctxcancel", 1)], "judge": ["C03"], "quick_s": 20, "thorough_s": 600, "level": "fault_enumeration"},
     "C04": {"families": [("c04", 1), ("ctxcancel", 1)], "judge": ["C04"], "quick_s": 20, "thorough_s": 600},
@@ -24,7 +24,7 @@ PROPS = {
     "C13": {"families": [("c13", 1)], "judge": ["C13"], "quick_s": 20, "thorough_s": 600, "crash_is_violation": True},
     "C14": {"families": [("c14sim", 1)], "judge": ["C14"], "quick_s": 12, "thorough_s": 300, "post": "c14_differential"},
     "C17": {"families": [("c17lib", 1), ("faultfree", 1), ("mixed", 1)], "judge": ["C17"], "quick_s": 20, "thorough_s": 600},
-    "C18": {"families": [("mixed", 1), ("faultfree", 1)], "judge": ["C18"], "quick_s": 20, "thorough_s": 600},
+    "C18": {"families": [("mixed", 1), ("faultfree", 1), ("c05ack", 1)], "judge": ["C18"], "quick_s": 20, "thorough_s": 600},
     "C19": {"families": [("c08", 2), ("mixed", 1), ("faultfree", 1)], "judge": ["C19"], "quick_s": 20, "thorough_s": 600},
 }
 
